@@ -369,6 +369,10 @@ struct ParallelAlgo {
     galois::StatTimer Tsort("InitializeSortTime");
     Tsort.start();
     heaviest = sortEdges();
+    if (graph.sizeEdges() == 0) {
+      // no edge: sortEdges() returned the identity of the max reduction
+      heaviest = 0;
+    }
     if (heaviest == std::numeric_limits<EdgeData>::max() ||
         heaviest == std::numeric_limits<EdgeData>::min()) {
       GALOIS_DIE("Edge weights of graph out of range");
